@@ -211,7 +211,7 @@ func c10Canary(c *Ctx, cs *c10Case, after string) bool {
 }
 
 func c10Run(c *Ctx, i int, r *gen.R) {
-	spec := r.Table(gen.TableOpts{MaxCols: 4, MaxRows: 5, ZeroHeaderOK: true, MinCols: 0,
+	spec := r.Table(gen.TableOpts{MaxCols: 4, MaxRows: 5, ZeroHeaderOK: true, MinCols: 0, Noise: gen.NoiseSkipable | gen.NoiseAlign,
 		Item: func(r *gen.R) gen.ItemSpec {
 			switch r.Intn(12) {
 			case 0:
